@@ -134,7 +134,7 @@ def gen_jobs(ctx):
         inputs = sorted(set(variants[i % len(variants)](s) for i, s in enumerate(base)) | {"", " ", "\n"})
         jobs.append((name, text, inputs))
     for i in range(12 if quick else 120):
-        for gen in (gramgen.ctx_nullable_grammar, gramgen.lr1_twin_grammar):
+        for gen in (gramgen.ctx_nullable_grammar, gramgen.lr1_twin_grammar, gramgen.unit_chain_grammar):
             prods, text = gen(rng)
             alpha = gramgen.alphabet_of(text)
             base = set()
